@@ -1,4 +1,36 @@
 # Table behind MANIFEST.json (see mkmanifest.py). Properties move from NOT_APPLICABLE to CHECKS as their
 # checks are built and silent on the unchanged tree.
-CHECKS = {}
-NOT_APPLICABLE = {f"C{i:02d}": "check under construction in this round (runtime monitor designed in DESIGN.md, not yet registered)" for i in range(1, 21)}
+def c(level, technique, text, note, ref):
+    return {"level": level, "technique": technique, "text": text, "note": note, "ref": ref}
+
+ENGINE_NOTE = ("Trusted base: the harness plugins/recording vault log events under one mutex in real-time order; "
+               "schedules are sampled (latency scripts + vault delays), not enumerated; held on the executions observed only.")
+
+CHECKS = {
+ "C01": c("exploration", "runtime monitor: offline ordering oracle over the merged plugin begin/end event log of the real engine, race detector on",
+          "Runs the real engine on generated plans (random shapes, check groups, concurrency, tolerance, latencies with slow tails, vault delays, 1-3 plans per Workstream) and checks block order, in-sequence order with success gating, pre-check gating, post/deferred placement on the recorded begin/end events.",
+          ENGINE_NOTE, "DESIGN.md §C01"),
+ "C02": c("exploration", "runtime monitor: in-flight-set replay over the plugin event log (concurrency bound), race detector on",
+          "Replays the totally ordered plugin log and at every begin event counts distinct sequences of the block with an invocation in flight against Concurrency, and checks that no two blocks of one plan overlap; evidence reports how many blocks actually reached their bound.",
+          ENGINE_NOTE, "DESIGN.md §C02"),
+ "C03": c("exploration", "runtime monitor: count/prefix oracle over plugin log + final plan (tolerated failures)",
+          "Generated blocks with failing sequences at every position, all tolerance/concurrency values; oracle checks F <= T+C, exact stop for Concurrency 1, block/plan status equivalences and that nothing runs after a Failed block.",
+          ENGINE_NOTE, "DESIGN.md §C03"),
+ "C04": c("exploration", "runtime monitor: Wait-return snapshot vs later events and re-read plan + consistency/reason rules; Go race detector as oracle",
+          "At Wait return records the plan, then watches for plugin or vault events for that plan until quiescence plus a grace window and re-reads the stored plan; applies the status-consistency and failure-reason rules; race reports between cont-check goroutines and End are attributed here.",
+          ENGINE_NOTE + " 'Never changes afterwards' is bounded by the observation window.", "DESIGN.md §C04"),
+ "C05": c("exploration", "runtime monitor: per-action invocation list vs stored attempts (tokens make attempts identify invocations)",
+          "Scripts over {ok, transient, permanent, wrongtype, overrun} with retry budgets 0-4 for sequence and check actions; every stored attempt must carry the unique token/error of the invocation that produced it, in order, with the call-count and stop rules.",
+          ENGINE_NOTE + " Plans are stored with vault.Create to allow 60 ms timeouts.", "DESIGN.md §C05"),
+ "C06": c("exploration", "runtime monitor: gating oracle over plugin log + final plan; bounded-exhaustive box of check-group combinations",
+          "All 243 present/pass/fail assignments of the five check groups at plan level and at block level (exhaustive box) plus random plans; oracle: bypass success runs nothing else, bypass failure alone never fails the scope, failed pre-check or failed initial continuous-check run means no sequence action is invoked and the scope fails.",
+          ENGINE_NOTE, "DESIGN.md §C06"),
+ "C07": c("exploration", "runtime monitor: cont-check failure/deferred-run oracle over plugin log + bounded-progress rendezvous for 'keeps being re-run'",
+          "Continuous-check failures injected at run k landing before, between, during and after sequences (zones measured and required non-empty); deferred checks must run exactly once per entered, non-bypassed scope; a rendezvous action that only returns after k further continuous-check runs decides 'keeps being re-run' as bounded progress.",
+          ENGINE_NOTE + " Liveness is decided as bounded progress against an 8 s watchdog (nominal milliseconds).", "DESIGN.md §C07"),
+ "C08": c("exploration", "runtime monitor: write-before-begin oracle over the merged vault-write/plugin log + polling readers",
+          "A recording vault logs each write after it is durable in the same ordered log as plugin begins; oracle demands a durable Running write before each invocation, durable attempts before retries/next action, durable terminal state before Wait returns; concurrent pollers check that terminal statuses never regress.",
+          ENGINE_NOTE, "DESIGN.md §C08"),
+}
+BUILT = set(CHECKS)
+NOT_APPLICABLE = {f"C{i:02d}": "check under construction in this round (runtime monitor designed in DESIGN.md, not yet registered)" for i in range(1, 21) if f"C{i:02d}" not in BUILT}
